@@ -20,170 +20,36 @@ package main
 import (
 	"bytes"
 	"crypto/cipher"
+	"crypto/sha256"
+	"encoding/binary"
 	"fmt"
+	"io"
 	"math/big"
 	"os"
 	"os/exec"
 	"path/filepath"
-	"reflect"
 	"regexp"
 	"sort"
 	"strings"
 	"sync"
-	"unsafe"
+	"sync/atomic"
 
 	"go.dedis.ch/kyber/v4"
 	"go.dedis.ch/kyber/v4/pairing"
 	"go.dedis.ch/kyber/v4/pairing/bls12381/kilic"
 	"go.dedis.ch/kyber/v4/pairing/bn254"
+	"go.dedis.ch/kyber/v4/proof"
 	"go.dedis.ch/kyber/v4/share"
 	"go.dedis.ch/kyber/v4/sign/bdn"
 	"go.dedis.ch/kyber/v4/sign/bls"
+	"go.dedis.ch/kyber/v4/sign/cosi"
 	"go.dedis.ch/kyber/v4/sign/eddsa"
 	"go.dedis.ch/kyber/v4/sign/schnorr"
+	"go.dedis.ch/kyber/v4/util/random"
+	"go.dedis.ch/kyber/v4/xof/blake2xb"
 	"kyverif/hg"
 	"kyverif/vh"
 )
-
-// ---------------------------------------------------------------- deep snapshot
-
-type snapper struct {
-	seen  map[uintptr]bool
-	lines []string
-}
-
-func numeric(k reflect.Kind) bool {
-	switch k {
-	case reflect.Bool, reflect.Int, reflect.Int8, reflect.Int16, reflect.Int32, reflect.Int64,
-		reflect.Uint, reflect.Uint8, reflect.Uint16, reflect.Uint32, reflect.Uint64, reflect.Uintptr,
-		reflect.Float32, reflect.Float64, reflect.Complex64, reflect.Complex128:
-		return true
-	}
-	return false
-}
-
-func flat(t reflect.Type) bool { // contains no pointers: raw bytes are the whole state
-	switch t.Kind() {
-	case reflect.Array:
-		return flat(t.Elem())
-	case reflect.Struct:
-		for i := 0; i < t.NumField(); i++ {
-			if !flat(t.Field(i).Type) {
-				return false
-			}
-		}
-		return true
-	}
-	return numeric(t.Kind())
-}
-
-func rawBytes(p unsafe.Pointer, n uintptr) []byte {
-	if n == 0 {
-		return nil
-	}
-	return append([]byte(nil), unsafe.Slice((*byte)(p), int(n))...)
-}
-
-func (s *snapper) walk(v reflect.Value, path string, depth int) {
-	if depth > 14 || len(s.lines) > 400000 {
-		return
-	}
-	t := v.Type()
-	if v.CanAddr() && flat(t) {
-		s.lines = append(s.lines, path+"="+vh.Hex(rawBytes(unsafe.Pointer(v.UnsafeAddr()), t.Size())))
-		return
-	}
-	switch v.Kind() {
-	case reflect.Ptr:
-		if v.IsNil() {
-			s.lines = append(s.lines, path+"=nil")
-			return
-		}
-		a := v.Pointer()
-		s.lines = append(s.lines, fmt.Sprintf("%s=ptr:%x", path, a))
-		if s.seen[a] {
-			return
-		}
-		s.seen[a] = true
-		s.walk(v.Elem(), path+"*", depth+1)
-	case reflect.Struct:
-		for i := 0; i < v.NumField(); i++ {
-			f := v.Field(i)
-			if f.CanAddr() {
-				f = reflect.NewAt(f.Type(), unsafe.Pointer(f.UnsafeAddr())).Elem()
-			}
-			s.walk(f, path+"."+t.Field(i).Name, depth+1)
-		}
-	case reflect.Slice:
-		if v.IsNil() {
-			s.lines = append(s.lines, path+"=nilslice")
-			return
-		}
-		s.lines = append(s.lines, fmt.Sprintf("%s=slice:%x/%d/%d", path, v.Pointer(), v.Len(), v.Cap()))
-		et := t.Elem()
-		if flat(et) {
-			// the whole backing array b[:cap(b)]: an append by a reader writes past len
-			if v.Cap() > 0 {
-				s.lines = append(s.lines, path+"[:cap]="+vh.Hex(rawBytes(unsafe.Pointer(v.Pointer()), et.Size()*uintptr(v.Cap()))))
-			}
-			return
-		}
-		if v.Len() == 0 {
-			return
-		}
-		if s.seen[v.Pointer()] {
-			return
-		}
-		s.seen[v.Pointer()] = true
-		for i := 0; i < v.Len(); i++ {
-			s.walk(v.Index(i), fmt.Sprintf("%s[%d]", path, i), depth+1)
-		}
-	case reflect.Array:
-		for i := 0; i < v.Len(); i++ {
-			s.walk(v.Index(i), fmt.Sprintf("%s[%d]", path, i), depth+1)
-		}
-	case reflect.Interface:
-		if v.IsNil() {
-			s.lines = append(s.lines, path+"=nilif")
-			return
-		}
-		s.walk(v.Elem(), path+"!", depth+1)
-	case reflect.String:
-		s.lines = append(s.lines, path+"=str:"+v.String())
-	case reflect.Map:
-		s.lines = append(s.lines, fmt.Sprintf("%s=map:%d", path, v.Len()))
-	default:
-		if numeric(v.Kind()) {
-			s.lines = append(s.lines, fmt.Sprintf("%s=%v", path, v))
-		}
-	}
-}
-
-// snapshot returns the deep state of the object behind pointer / interface x
-func snapshot(x interface{}) []string {
-	s := &snapper{seen: map[uintptr]bool{}}
-	s.walk(reflect.ValueOf(x), "", 0)
-	return s.lines
-}
-
-func diff(a, b []string) string {
-	if len(a) != len(b) {
-		return fmt.Sprintf("shape changed (%d -> %d entries)", len(a), len(b))
-	}
-	for i := range a {
-		if a[i] != b[i] {
-			x, y := a[i], b[i]
-			if len(x) > 160 {
-				x = x[:160] + "..."
-			}
-			if len(y) > 160 {
-				y = y[:160] + "..."
-			}
-			return x + "  ->  " + y
-		}
-	}
-	return ""
-}
 
 // ---------------------------------------------------------------- per-group checks
 
@@ -215,7 +81,7 @@ type ctx struct {
 func (c *ctx) observe(key string, shared []interface{}, f func() string) []bool {
 	before := make([][]string, len(shared))
 	for i, o := range shared {
-		before[i] = snapshot(o)
+		before[i] = hg.Snapshot(o)
 	}
 	var r1, r2 string
 	pan, msg := vh.Try(func() { r1 = f(); r2 = f() })
@@ -229,8 +95,8 @@ func (c *ctx) observe(key string, shared []interface{}, f func() string) []bool 
 			map[string]interface{}{"first": vh.Hex([]byte(r1)), "second": vh.Hex([]byte(r2))})
 	}
 	for i, o := range shared {
-		after := snapshot(o)
-		if d := diff(before[i], after); d != "" {
+		after := hg.Snapshot(o)
+		if d := hg.Diff(before[i], after); d != "" {
 			changed[i] = true
 			c.rep.Fail(fmt.Sprintf("%s/writes-shared-object[%d]", key, i),
 				"a read-only call changed the memory of a shared object", map[string]interface{}{"call": key, "object": i, "first_difference": d})
@@ -265,17 +131,9 @@ func (c *ctx) emit(kind string, a, b int, changed []bool, desc string) {
 	c.rep.Index(c.id, desc)
 }
 
-// nonNormal returns a point in a non-normalised internal representation (result of additions)
-func nonNormal(im *hg.Impl, rng *vh.Rng) kyber.Point {
-	a := im.G.Point().Mul(im.NewScalar(rng.BigBelow(im.Q)), im.Gen())
-	b := im.G.Point().Mul(im.NewScalar(rng.BigBelow(im.Q)), im.Gen())
-	p := im.G.Point().Add(a, b)
-	return im.G.Point().Add(p, a)
-}
-
 func groupChecks(c *ctx, im *hg.Impl, rng *vh.Rng, draws int) {
 	for d := 0; d < draws; d++ {
-		p, q := nonNormal(im, rng), nonNormal(im, rng)
+		p, q := hg.NonNormal(im, rng), hg.NonNormal(im, rng)
 		if d == 1 {
 			q = im.G.Point().Sub(p, p) // identity, non-normalised
 		}
@@ -290,21 +148,21 @@ func groupChecks(c *ctx, im *hg.Impl, rng *vh.Rng, draws int) {
 			c.emit("CRead", impl, rm, ch, pre+rname[rm])
 		}
 		ro(rMarshal, []interface{}{p}, func() string { b, _ := p.MarshalBinary(); return string(b) })
-		p = nonNormal(im, rng) // every call gets an input whose lazy normalisation has not happened yet
+		p = hg.NonNormal(im, rng) // every call gets an input whose lazy normalisation has not happened yet
 		ro(rString, []interface{}{p}, func() string { return p.String() })
-		p = nonNormal(im, rng)
+		p = hg.NonNormal(im, rng)
 		ro(rEqual, []interface{}{p, q}, func() string { return fmt.Sprint(p.Equal(q), q.Equal(p), p.Equal(p)) })
-		p, q = nonNormal(im, rng), nonNormal(im, rng)
+		p, q = hg.NonNormal(im, rng), hg.NonNormal(im, rng)
 		ro(rClone, []interface{}{p}, func() string { return hg.Enc(p.Clone()) })
 		if im.HasEmbed {
 			e := im.G.Point().Embed([]byte("data"), vh.NewSeqStream(rng.Bytes(8)))
-			z := nonNormal(im, rng)
+			z := hg.NonNormal(im, rng)
 			e2 := im.G.Point().Sub(im.G.Point().Add(e, z), z) // the embedding in a non-normalised representation
 			ro(rData, []interface{}{e2}, func() string { b, err := e2.Data(); return string(b) + fmt.Sprint(err) })
 		}
-		p = nonNormal(im, rng)
+		p = hg.NonNormal(im, rng)
 		ro(rMarshalTo, []interface{}{p}, func() string { var w bytes.Buffer; _, _ = p.MarshalTo(&w); return w.String() })
-		p = nonNormal(im, rng)
+		p = hg.NonNormal(im, rng)
 		ro(rScalarMarshal, []interface{}{s}, func() string { b, _ := s.MarshalBinary(); return string(b) })
 		ro(rScalarString, []interface{}{s}, func() string { return s.String() })
 		ro(rScalarEqual, []interface{}{s, t}, func() string { return fmt.Sprint(s.Equal(t), t.Equal(s)) })
@@ -336,218 +194,28 @@ func groupChecks(c *ctx, im *hg.Impl, rng *vh.Rng, draws int) {
 	}
 }
 
-// ---------------------------------------------------------------- internal forms
-
-type pform struct {
-	name string
-	mk   func() kyber.Point
-}
-type sform struct {
-	name string
-	mk   func() kyber.Scalar
-}
-
-func mustBig(s string) *big.Int { v, _ := new(big.Int).SetString(s, 10); return v }
-
-// field primes of the supported curves (to build encodings with unreduced coordinates)
-var fieldPrimes = []*big.Int{
-	new(big.Int).Sub(new(big.Int).Lsh(big.NewInt(1), 255), big.NewInt(19)),
-	mustBig("115792089210356248762697446949407573530086143415290314195533631308867097853951"),
-	mustBig("65000549695646603732796438742359905742825358107623003571877145026864184071783"),
-	mustBig("21888242871839275222246405745257275088696311157297823662689037894645226208583"),
-	mustBig("4002409555221667393417789825735904156556882819939007885332058136124031650490837864442687629129015664037894272559787"),
-}
-
-func revb(b []byte) []byte {
-	o := make([]byte, len(b))
-	for i := range b {
-		o[len(b)-1-i] = b[i]
-	}
-	return o
-}
-
-// altEncodings: encodings that differ from the canonical one but may be accepted by
-// UnmarshalBinary (unreduced coordinates, stray flag bits)
-func altEncodings(enc []byte) [][]byte {
-	var out [][]byte
-	n := len(enc)
-	add := func(b []byte) {
-		if !bytes.Equal(b, enc) {
-			out = append(out, b)
-		}
-	}
-	var chunks [][2]int
-	for _, parts := range []int{1, 2, 4, 12} {
-		if n%parts == 0 {
-			for i := 0; i < parts; i++ {
-				chunks = append(chunks, [2]int{i * n / parts, (i + 1) * n / parts})
-			}
-		}
-		if (n-1)%parts == 0 && n > 1 { // one leading format byte
-			for i := 0; i < parts; i++ {
-				chunks = append(chunks, [2]int{1 + i*(n-1)/parts, 1 + (i+1)*(n-1)/parts})
-			}
-		}
-	}
-	for _, ch := range chunks {
-		l := ch[1] - ch[0]
-		for _, le := range []bool{false, true} {
-			raw := append([]byte(nil), enc[ch[0]:ch[1]]...)
-			mask := byte(0)
-			if le { // compressed Edwards form: sign bit in the top bit of the last byte
-				mask = raw[l-1] & 0x80
-				raw[l-1] &^= 0x80
-				raw = revb(raw)
-			}
-			x := new(big.Int).SetBytes(raw)
-			for _, P := range fieldPrimes {
-				y := new(big.Int).Add(x, P)
-				if y.BitLen() > 8*l || (le && y.BitLen() > 8*l-1) {
-					continue
-				}
-				yb := y.FillBytes(make([]byte, l))
-				if le {
-					yb = revb(yb)
-					yb[l-1] |= mask
-				}
-				b := append([]byte(nil), enc...)
-				copy(b[ch[0]:ch[1]], yb)
-				add(b)
-			}
-		}
-	}
-	for _, bit := range []byte{0x80, 0x40, 0x20} {
-		b := append([]byte(nil), enc...)
-		b[0] ^= bit
-		add(b)
-		b = append([]byte(nil), enc...)
-		b[n-1] ^= bit
-		add(b)
-	}
-	return out
-}
-
-func pointForms(im *hg.Impl, rng *vh.Rng) []pform {
-	G := im.G
-	sum := func() kyber.Point { return nonNormal(im, rng) }
-	fs := []pform{
-		{"sum", sum},
-		{"decoded", func() kyber.Point { return im.FreshPoint(hg.Enc(sum())) }},
-		{"identity:Sub(P,P)", func() kyber.Point { p := sum(); return G.Point().Sub(p, p) }},
-		{"identity:Mul(0,P)", func() kyber.Point { return G.Point().Mul(G.Scalar().Zero(), sum()) }},
-		{"identity:Null()", func() kyber.Point { return G.Point().Null() }},
-		{"identity:decoded", func() kyber.Point { return im.FreshPoint(hg.Enc(G.Point().Null())) }},
-		{"generator", func() kyber.Point { return im.Gen() }},
-		{"Neg(sum)", func() kyber.Point { return G.Point().Neg(sum()) }},
-		{"double", func() kyber.Point { p := sum(); return G.Point().Add(p, p) }},
-		{"Clone(sum)", func() kyber.Point { return sum().Clone() }},
-		{"Set(sum)", func() kyber.Point { return G.Point().Set(sum()) }},
-		{"Mul(s,sum)", func() kyber.Point { return G.Point().Mul(im.NewScalar(rng.BigBelow(im.Q)), sum()) }},
-	}
-	if im.HasMulBase {
-		fs = append(fs, pform{"Mul(s,nil)", func() kyber.Point { return G.Point().Mul(im.NewScalar(rng.BigBelow(im.Q)), nil) }})
-	}
-	if im.HasPick {
-		fs = append(fs, pform{"Pick", func() kyber.Point { return G.Point().Pick(vh.NewSeqStream(rng.Bytes(8))) }})
-	}
-	if im.HasEmbed {
-		fs = append(fs, pform{"Embed", func() kyber.Point { return G.Point().Embed([]byte("abc"), vh.NewSeqStream(rng.Bytes(8))) }})
-	}
-	// encodings UnmarshalBinary accepts although they are not what MarshalBinary produces
-	n := 0
-	for _, base := range []kyber.Point{G.Point().Null(), im.Gen(), sum()} {
-		enc := []byte(hg.Enc(base))
-		for _, alt := range altEncodings(enc) {
-			alt := alt
-			ok := false
-			vh.Try(func() { ok = G.Point().UnmarshalBinary(alt) == nil })
-			if !ok || n >= 8 {
-				continue
-			}
-			n++
-			fs = append(fs, pform{"noncanonical-encoding", func() kyber.Point {
-				p := G.Point()
-				_ = p.UnmarshalBinary(alt)
-				return p
-			}})
-		}
-	}
-	return fs
-}
-
-func scalarForms(im *hg.Impl, rng *vh.Rng) []sform {
-	G := im.G
-	rnd := func() kyber.Scalar { return im.NewScalar(rng.BigBelow(im.Q)) }
-	fs := []sform{
-		{"random", rnd},
-		{"Zero()", func() kyber.Scalar { return G.Scalar().Zero() }},
-		{"One()", func() kyber.Scalar { return G.Scalar().One() }},
-		{"SetInt64(-1)", func() kyber.Scalar { return G.Scalar().SetInt64(-1) }},
-		{"Neg(0)", func() kyber.Scalar { return G.Scalar().Neg(G.Scalar().Zero()) }},
-		{"Sub(a,a)", func() kyber.Scalar { a := rnd(); return G.Scalar().Sub(a, a) }},
-		{"Mul(a,b)", func() kyber.Scalar { return G.Scalar().Mul(rnd(), rnd()) }},
-		{"Pick", func() kyber.Scalar { return G.Scalar().Pick(vh.NewSeqStream(rng.Bytes(8))) }},
-		{"SetBytes(long)", func() kyber.Scalar { return G.Scalar().SetBytes(rng.Bytes(70)) }},
-		{"decoded", func() kyber.Scalar {
-			b, _ := rnd().MarshalBinary()
-			x := G.Scalar()
-			_ = x.UnmarshalBinary(b)
-			return x
-		}},
-	}
-	// unreduced encodings accepted by UnmarshalBinary
-	l := G.Scalar().MarshalSize()
-	le := G.Scalar().ByteOrder() == kyber.LittleEndian
-	var cands []*big.Int
-	for _, k := range []int64{0, 7} {
-		v := new(big.Int).Add(im.Q, big.NewInt(k))
-		cands = append(cands, v, new(big.Int).Add(v, im.Q))
-	}
-	cands = append(cands, new(big.Int).Sub(new(big.Int).Lsh(big.NewInt(1), uint(8*l)), big.NewInt(1)),
-		new(big.Int).Sub(new(big.Int).Lsh(big.NewInt(1), uint(8*l-1)), big.NewInt(1)))
-	for _, v := range cands {
-		if v.BitLen() > 8*l {
-			continue
-		}
-		b := v.FillBytes(make([]byte, l))
-		if le {
-			b = revb(b)
-		}
-		ok := false
-		vh.Try(func() { ok = G.Scalar().UnmarshalBinary(b) == nil })
-		if ok {
-			fs = append(fs, sform{"noncanonical-encoding", func() kyber.Scalar {
-				x := G.Scalar()
-				_ = x.UnmarshalBinary(b)
-				return x
-			}})
-		}
-	}
-	return fs
-}
-
 // formChecks: the read-only method set on a fresh instance of every internal form; the group object
 // itself is shared state as well
 func formChecks(c *ctx, im *hg.Impl, rng *vh.Rng) {
 	G := im.G
 	pre := im.Name + ":"
-	pfs, sfs := pointForms(im, rng), scalarForms(im, rng)
-	normalP, normalS := nonNormal(im, rng), im.NewScalar(rng.BigBelow(im.Q))
+	pfs, sfs := hg.PointForms(im, rng), hg.ScalarForms(im, rng)
+	normalP, normalS := hg.NonNormal(im, rng), im.NewScalar(rng.BigBelow(im.Q))
 	for _, f := range pfs {
 		f := f
 		ro := func(rm int, two bool, call func(p, q kyber.Point) string) {
-			p := f.mk()
+			p := f.Mk()
 			q := normalP
 			if two && rng.Bool() {
-				q = f.mk()
+				q = f.Mk()
 			}
 			shared := []interface{}{p}
 			if two {
 				shared = append(shared, q)
 			}
-			ch := c.observe(pre+rname[rm]+"{"+f.name+"}", append(shared, G), func() string { return call(p, q) })
-			c.emit("CRead", im.PImpl, rm, ch[:len(shared)], pre+rname[rm]+"{"+f.name+"}")
-			c.emitObj(6, ch[len(shared)], pre+rname[rm]+"{"+f.name+"} group object")
+			ch := c.observe(pre+rname[rm]+"{"+f.Name+"}", append(shared, G), func() string { return call(p, q) })
+			c.emit("CRead", im.PImpl, rm, ch[:len(shared)], pre+rname[rm]+"{"+f.Name+"}")
+			c.emitObj(6, ch[len(shared)], pre+rname[rm]+"{"+f.Name+"} group object")
 		}
 		ro(rMarshal, false, func(p, _ kyber.Point) string { b, _ := p.MarshalBinary(); return string(b) })
 		ro(rString, false, func(p, _ kyber.Point) string { return p.String() })
@@ -558,10 +226,10 @@ func formChecks(c *ctx, im *hg.Impl, rng *vh.Rng) {
 			ro(rData, false, func(p, _ kyber.Point) string { b, err := p.Data(); return string(b) + fmt.Sprint(err != nil) })
 		}
 		op := func(m int, name string, call func(p kyber.Point) string) {
-			p := f.mk()
-			ch := c.observe(pre+"operand-of-"+name+"{"+f.name+"}", []interface{}{p, normalP, normalS, G}, func() string { return call(p) })
-			c.emit("COperand", im.PImpl, m, []bool{false, ch[0], ch[1]}, pre+"operand-of-"+name+"{"+f.name+"}")
-			c.emitObj(6, ch[2] || ch[3], pre+"operand-of-"+name+"{"+f.name+"} scalar / group object")
+			p := f.Mk()
+			ch := c.observe(pre+"operand-of-"+name+"{"+f.Name+"}", []interface{}{p, normalP, normalS, G}, func() string { return call(p) })
+			c.emit("COperand", im.PImpl, m, []bool{false, ch[0], ch[1]}, pre+"operand-of-"+name+"{"+f.Name+"}")
+			c.emitObj(6, ch[2] || ch[3], pre+"operand-of-"+name+"{"+f.Name+"} scalar / group object")
 		}
 		op(0, "Add", func(p kyber.Point) string {
 			return hg.Enc(G.Point().Add(p, normalP)) + hg.Enc(G.Point().Add(normalP, p))
@@ -572,26 +240,26 @@ func formChecks(c *ctx, im *hg.Impl, rng *vh.Rng) {
 		op(2, "Neg", func(p kyber.Point) string { return hg.Enc(G.Point().Neg(p)) })
 		op(7, "Set", func(p kyber.Point) string { return hg.Enc(G.Point().Set(p)) })
 		{
-			p := f.mk()
-			ch := c.observe(pre+"operand-of-Mul{"+f.name+"}", []interface{}{normalS, p, G}, func() string { return hg.Enc(G.Point().Mul(normalS, p)) })
-			c.emit("COperand", im.PImpl, 3, []bool{false, ch[0], ch[1]}, pre+"operand-of-Mul{"+f.name+"}")
+			p := f.Mk()
+			ch := c.observe(pre+"operand-of-Mul{"+f.Name+"}", []interface{}{normalS, p, G}, func() string { return hg.Enc(G.Point().Mul(normalS, p)) })
+			c.emit("COperand", im.PImpl, 3, []bool{false, ch[0], ch[1]}, pre+"operand-of-Mul{"+f.Name+"}")
 			c.emitObj(6, ch[2], pre+"operand-of-Mul group object")
 		}
 	}
 	for _, f := range sfs {
 		f := f
 		ro := func(rm int, two bool, call func(s, t kyber.Scalar) string) {
-			s := f.mk()
+			s := f.Mk()
 			t := normalS
 			if two && rng.Bool() {
-				t = f.mk()
+				t = f.Mk()
 			}
 			shared := []interface{}{s}
 			if two {
 				shared = append(shared, t)
 			}
-			ch := c.observe(pre+rname[rm]+"{"+f.name+"}", append(shared, G), func() string { return call(s, t) })
-			c.emit("CRead", im.SImpl, rm, ch[:len(shared)], pre+rname[rm]+"{"+f.name+"}")
+			ch := c.observe(pre+rname[rm]+"{"+f.Name+"}", append(shared, G), func() string { return call(s, t) })
+			c.emit("CRead", im.SImpl, rm, ch[:len(shared)], pre+rname[rm]+"{"+f.Name+"}")
 			c.emitObj(6, ch[len(shared)], pre+rname[rm]+" group object")
 		}
 		ro(rScalarMarshal, false, func(s, _ kyber.Scalar) string { b, _ := s.MarshalBinary(); return string(b) })
@@ -600,9 +268,9 @@ func formChecks(c *ctx, im *hg.Impl, rng *vh.Rng) {
 		ro(rScalarClone, false, func(s, _ kyber.Scalar) string { return hg.ScalarVal(s.Clone()).String() })
 		ro(rScalarMarshal, false, func(s, _ kyber.Scalar) string { var w bytes.Buffer; _, _ = s.MarshalTo(&w); return w.String() })
 		op := func(m int, name string, call func(s kyber.Scalar) string) {
-			s := f.mk()
-			ch := c.observe(pre+"operand-of-"+name+"{"+f.name+"}", []interface{}{s, normalS, G}, func() string { return call(s) })
-			c.emit("COperand", im.SImpl, m, []bool{false, ch[0], ch[1]}, pre+"operand-of-"+name+"{"+f.name+"}")
+			s := f.Mk()
+			ch := c.observe(pre+"operand-of-"+name+"{"+f.Name+"}", []interface{}{s, normalS, G}, func() string { return call(s) })
+			c.emit("COperand", im.SImpl, m, []bool{false, ch[0], ch[1]}, pre+"operand-of-"+name+"{"+f.Name+"}")
 			c.emitObj(6, ch[2], pre+"operand-of-"+name+" group object")
 		}
 		op(20, "Scalar.Add", func(s kyber.Scalar) string {
@@ -616,14 +284,14 @@ func formChecks(c *ctx, im *hg.Impl, rng *vh.Rng) {
 			return hg.ScalarVal(G.Scalar().Mul(s, normalS)).String() + hg.ScalarVal(G.Scalar().Mul(normalS, s)).String()
 		})
 		op(31, "Scalar.Set", func(s kyber.Scalar) string { return hg.ScalarVal(G.Scalar().Set(s)).String() })
-		if new(big.Int).GCD(nil, nil, new(big.Int).Mod(hg.ScalarVal(f.mk()), im.Q), im.Q).Cmp(big.NewInt(1)) == 0 && f.name != "random" && f.name != "Pick" && f.name != "Mul(a,b)" && f.name != "SetBytes(long)" && f.name != "decoded" {
+		if new(big.Int).GCD(nil, nil, new(big.Int).Mod(hg.ScalarVal(f.Mk()), im.Q), im.Q).Cmp(big.NewInt(1)) == 0 && f.Name != "random" && f.Name != "Pick" && f.Name != "Mul(a,b)" && f.Name != "SetBytes(long)" && f.Name != "decoded" {
 			op(25, "Scalar.Inv", func(s kyber.Scalar) string { return hg.ScalarVal(G.Scalar().Inv(s)).String() })
 			op(24, "Scalar.Div", func(s kyber.Scalar) string { return hg.ScalarVal(G.Scalar().Div(normalS, s)).String() })
 		}
 		{ // as the scalar operand of a point multiplication
-			s := f.mk()
-			ch := c.observe(pre+"operand-of-Mul{scalar "+f.name+"}", []interface{}{s, normalP, G}, func() string { return hg.Enc(G.Point().Mul(s, normalP)) })
-			c.emit("COperand", im.PImpl, 3, []bool{false, ch[0], ch[1]}, pre+"operand-of-Mul{scalar "+f.name+"}")
+			s := f.Mk()
+			ch := c.observe(pre+"operand-of-Mul{scalar "+f.Name+"}", []interface{}{s, normalP, G}, func() string { return hg.Enc(G.Point().Mul(s, normalP)) })
+			c.emit("COperand", im.PImpl, 3, []bool{false, ch[0], ch[1]}, pre+"operand-of-Mul{scalar "+f.Name+"}")
 			c.emitObj(6, ch[2], pre+"operand-of-Mul group object")
 		}
 	}
@@ -645,7 +313,7 @@ func (c *ctx) emitObj(kind int, changed bool, desc string) {
 
 func pairingChecks(c *ctx, name string, s pairing.Suite, g1, g2 *hg.Impl, rng *vh.Rng, draws int) {
 	for d := 0; d < draws; d++ {
-		p1, p2 := nonNormal(g1, rng), nonNormal(g2, rng)
+		p1, p2 := hg.NonNormal(g1, rng), hg.NonNormal(g2, rng)
 		k := g1.NewScalar(rng.BigBelow(g1.Q))
 		p3 := g1.G.Point().Mul(k, p1)
 		kinv := g1.G.Scalar().Inv(k)
@@ -809,6 +477,346 @@ func suiteChecks(c *ctx, rng *vh.Rng) {
 	c.emitObj(8, ch[0] || ch[1], "eddsa:Verify")
 }
 
+// ---------------------------------------------------------------- composite shared objects
+
+// patReader is a STATELESS entropy source (every read returns the same pattern), so that a random
+// stream built over it has no legitimately changing state: any changed byte of the stream object
+// is a write by a draw.
+type patReader byte
+
+func (p patReader) Read(b []byte) (int, error) {
+	for i := range b {
+		b[i] = byte(p) + byte(i)
+	}
+	return len(b), nil
+}
+
+// ctrReader is a source with its own, properly synchronised state: every read is distinct
+type ctrReader struct{ n *atomic.Uint64 }
+
+func (c ctrReader) Read(b []byte) (int, error) {
+	for i := 0; i < len(b); i += 8 {
+		var w [8]byte
+		binary.BigEndian.PutUint64(w[:], c.n.Add(1))
+		copy(b[i:], w[:])
+	}
+	return len(b), nil
+}
+
+func permuted(n int, kind int, rng *vh.Rng) []int {
+	p := make([]int, n)
+	for i := range p {
+		p[i] = i
+	}
+	switch kind {
+	case 1: // descending
+		for i := range p {
+			p[i] = n - 1 - i
+		}
+	case 2: // rotated
+		for i := range p {
+			p[i] = (i + 2) % n
+		}
+	case 3: // random
+		for i := n - 1; i > 0; i-- {
+			j := rng.Intn(i + 1)
+			p[i], p[j] = p[j], p[i]
+		}
+	}
+	return p
+}
+
+// compositeChecks: composite objects in non-default configurations used read-only; a FRESH object
+// per trial (no warm-up), snapshots of the object, of its clones and of every operand (slices with
+// their element order and elements) before and after
+func compositeChecks(c *ctx, impls map[string]*hg.Impl, rng *vh.Rng) {
+	obj := func(kind int, what string, shared []interface{}, f func() string) {
+		chs := c.observe(what, shared, f)
+		any := false
+		for _, x := range chs {
+			any = any || x
+		}
+		c.emitObj(kind, any, what)
+	}
+	// 1. random streams over one, two and three explicit sources
+	for n := 1; n <= 3; n++ {
+		var rs []io.Reader
+		for i := 0; i < n; i++ {
+			rs = append(rs, patReader(17*i+3))
+		}
+		for _, l := range []int{1, 16, 100} {
+			st := random.New(rs...)
+			buf := make([]byte, l)
+			obj(9, fmt.Sprintf("random.New(%d sources):XORKeyStream(%d)", n, l), []interface{}{st}, func() string {
+				out := make([]byte, l)
+				st.XORKeyStream(out, buf)
+				return string(out)
+			})
+		}
+		// sequential model of a draw: blake2xb keyed with sha256 of the concatenated 32-byte reads
+		var cnt atomic.Uint64
+		var rs2 []io.Reader
+		for i := 0; i < n; i++ {
+			rs2 = append(rs2, ctrReader{&cnt})
+		}
+		st := random.New(rs2...)
+		var mcnt atomic.Uint64
+		for d := 0; d < 3; d++ {
+			got := make([]byte, 24)
+			st.XORKeyStream(got, make([]byte, 24))
+			var pool []byte
+			for i := 0; i < n; i++ {
+				b := make([]byte, 32)
+				_, _ = ctrReader{&mcnt}.Read(b)
+				pool = append(pool, b...)
+			}
+			seed := sha256.Sum256(pool)
+			want := make([]byte, 24)
+			blake2xb.New(seed[:]).XORKeyStream(want, make([]byte, 24))
+			if !bytes.Equal(got, want) {
+				c.rep.Fail(fmt.Sprintf("random.New(%d sources)/draw-differs-from-model", n), "a draw is not the key stream seeded by the hash of its own source reads",
+					map[string]interface{}{"draw": d, "got": vh.Hex(got), "want": vh.Hex(want)})
+			}
+			c.rep.Count(fmt.Sprintf("random-model %d %d", n, d), true)
+		}
+	}
+	// 2. bdn masks over rosters of different sizes: aggregation on a clone must not write the base
+	//    mask nor another clone
+	for _, sn := range []string{"bn256", "bls12381.kilic"} {
+		s := impls[sn+".G1"].Suite
+		sch := bdn.NewSchemeOnG1(s)
+		for _, roster := range []int{3, 33, 40} {
+			var pubs []kyber.Point
+			for i := 0; i < roster; i++ {
+				_, pk := sch.NewKeyPair(vh.NewSeqStream(rng.Bytes(8)))
+				pubs = append(pubs, pk)
+			}
+			for trial := 0; trial < 2; trial++ {
+				base, err := bdn.NewMask(s.G2(), pubs, nil)
+				if err != nil {
+					continue
+				}
+				other := base.Clone()
+				obj(3, fmt.Sprintf("%s:bdn.Mask(%d keys).Clone+AggregatePublicKeys", sn, roster), []interface{}{base, other, &pubs}, func() string {
+					cl := base.Clone()
+					for i := 0; i < roster; i++ {
+						if trial == 0 || i%3 == 0 {
+							_ = cl.SetBit(i, true)
+						}
+					}
+					agg, err := sch.AggregatePublicKeys(cl)
+					if err != nil {
+						return err.Error()
+					}
+					return hg.Enc(agg) + fmt.Sprint(cl.CountEnabled(), len(cl.Participants()))
+				})
+			}
+		}
+	}
+	// 3. share lists: complete / with holes, sorted / unsorted, handed to the recovery functions
+	for _, gn := range []string{"edwards25519", "bn256.G1"} {
+		im := impls[gn]
+		g := im.G
+		const t, n = 3, 6
+		pri := share.NewPriPoly(g, t, im.NewScalar(rng.BigBelow(im.Q)), vh.NewSeqStream(rng.Bytes(8)))
+		pub := pri.Commit(nil)
+		priS, pubS := pri.Shares(n), pub.Shares(n)
+		for kind := 0; kind < 4; kind++ {
+			for _, holes := range []bool{false, true} {
+				for _, count := range []int{n, t} {
+					perm := permuted(n, kind, rng)[:count]
+					ps := make([]*share.PriShare, 0, count)
+					qs := make([]*share.PubShare, 0, count)
+					for _, i := range perm {
+						ps = append(ps, priS[i])
+						qs = append(qs, pubS[i])
+					}
+					if holes && count == n {
+						ps[1], qs[4] = nil, nil
+					}
+					tag := fmt.Sprintf("%s:share list{order %d, holes %v, %d of %d}", gn, kind, holes && count == n, count, n)
+					ps2, qs2, ps3 := append([]*share.PriShare{}, ps...), append([]*share.PubShare{}, qs...), append([]*share.PriShare{}, ps...)
+					obj(10, tag+":RecoverSecret", []interface{}{&ps}, func() string {
+						v, err := share.RecoverSecret(g, ps, t, n)
+						if err != nil {
+							return err.Error()
+						}
+						return hg.ScalarVal(v).String()
+					})
+					obj(10, tag+":RecoverCommit", []interface{}{&qs}, func() string {
+						v, err := share.RecoverCommit(g, qs, t, n)
+						if err != nil {
+							return err.Error()
+						}
+						return hg.Enc(v)
+					})
+					obj(10, tag+":RecoverPubPoly", []interface{}{&qs2}, func() string {
+						v, err := share.RecoverPubPoly(g, qs2, t, n)
+						if err != nil {
+							return err.Error()
+						}
+						return hg.Enc(v.Commit())
+					})
+					obj(10, tag+":RecoverPriPoly", []interface{}{&ps2}, func() string {
+						v, err := share.RecoverPriPoly(g, ps2, t, n)
+						if err != nil {
+							return err.Error()
+						}
+						return hg.ScalarVal(v.Secret()).String()
+					})
+					_ = ps3
+				}
+			}
+		}
+		// polynomials shared for evaluation / checking
+		obj(4, gn+":PriPoly Eval/Shares/Commit/Secret", []interface{}{pri}, func() string {
+			return hg.ScalarVal(pri.Eval(2).V).String() + fmt.Sprint(len(pri.Shares(4))) + hg.Enc(pri.Commit(nil).Commit()) + hg.ScalarVal(pri.Secret()).String()
+		})
+		obj(4, gn+":PubPoly Eval/Shares/Check/Info", []interface{}{pub, priS[1]}, func() string {
+			_, cs := pub.Info()
+			return hg.Enc(pub.Eval(3).V) + fmt.Sprint(len(pub.Shares(4)), pub.Check(priS[1]), len(cs))
+		})
+	}
+	// 4. a proof predicate, its public values and the suite shared by provers and verifiers
+	if im := impls["edwards25519"]; im != nil {
+		if ps, ok := im.G.(proof.Suite); ok {
+			x := im.NewScalar(rng.BigBelow(im.Q))
+			B := im.G.Point().Base()
+			X := im.G.Point().Mul(x, nil)
+			pred := proof.Rep("X", "x", "B")
+			sval := map[string]kyber.Scalar{"x": x}
+			pval := map[string]kyber.Point{"B": B, "X": X}
+			var prf []byte
+			obj(11, "proof:HashProve(shared predicate)", []interface{}{pred, x, B, X, ps}, func() string {
+				p, err := proof.HashProve(ps, "verif", pred.Prover(ps, sval, pval, nil))
+				prf = p
+				return fmt.Sprint(len(p), err)
+			})
+			obj(11, "proof:HashVerify(shared predicate)", []interface{}{pred, B, X, ps}, func() string {
+				return fmt.Sprint(proof.HashVerify(ps, "verif", pred.Verifier(ps, pval), prf))
+			})
+		}
+	}
+	// 5. cosi participation mask read by several users
+	if im := impls["edwards25519"]; im != nil {
+		if cs, ok := im.G.(cosi.Suite); ok {
+			var pubs []kyber.Point
+			for i := 0; i < 9; i++ {
+				pubs = append(pubs, im.G.Point().Mul(im.NewScalar(rng.BigBelow(im.Q)), nil))
+			}
+			if m, err := cosi.NewMask(cs, pubs, pubs[2]); err == nil {
+				obj(3, "cosi.Mask read-only methods", []interface{}{m, &pubs}, func() string {
+					a, _ := m.IndexEnabled(2)
+					b, _ := m.KeyEnabled(pubs[2])
+					return fmt.Sprint(string(m.Mask()), m.Len(), m.CountEnabled(), m.CountTotal(), a, b)
+				})
+			}
+		}
+	}
+}
+
+// compositeStress (search mode): the FIRST use of a fresh shared object happens concurrently
+func compositeStress(c *ctx, impls map[string]*hg.Impl, rng *vh.Rng) {
+	const workers = 8
+	for trial := 0; trial < 6; trial++ {
+		// one multi-source stream, drawn from by all workers: every draw is seeded from its own
+		// (distinct) source reads, so no two draws may coincide
+		var cnt atomic.Uint64
+		st := random.New(ctrReader{&cnt}, ctrReader{&cnt}, ctrReader{&cnt})
+		outs := make([][]string, workers)
+		var wg sync.WaitGroup
+		for w := 0; w < workers; w++ {
+			wg.Add(1)
+			go func(w int) {
+				defer wg.Done()
+				for i := 0; i < 40; i++ {
+					b := make([]byte, 16)
+					st.XORKeyStream(b, b)
+					outs[w] = append(outs[w], string(b))
+				}
+			}(w)
+		}
+		wg.Wait()
+		seen := map[string]bool{}
+		for _, o := range outs {
+			for _, x := range o {
+				if seen[x] {
+					c.rep.Fail("random.New(3 sources)/concurrent-draws-collide", "two draws from one shared multi-source stream returned the same key stream",
+						map[string]interface{}{"bytes": vh.Hex([]byte(x))})
+				}
+				seen[x] = true
+			}
+		}
+		// one base mask over a large roster, clones aggregating at once
+		s := impls["bn256.G1"].Suite
+		sch := bdn.NewSchemeOnG1(s)
+		var pubs []kyber.Point
+		for i := 0; i < 40; i++ {
+			_, pk := sch.NewKeyPair(vh.NewSeqStream(rng.Bytes(8)))
+			pubs = append(pubs, pk)
+		}
+		ref, _ := bdn.NewMask(s.G2(), pubs, nil)
+		for i := range pubs {
+			_ = ref.SetBit(i, true)
+		}
+		wantP, _ := sch.AggregatePublicKeys(ref)
+		want := hg.Enc(wantP)
+		base, _ := bdn.NewMask(s.G2(), pubs, nil) // fresh: never aggregated on
+		got := make([]string, workers)
+		for w := 0; w < workers; w++ {
+			wg.Add(1)
+			go func(w int) {
+				defer wg.Done()
+				vh.Try(func() {
+					cl := base.Clone()
+					for i := range pubs {
+						_ = cl.SetBit(i, true)
+					}
+					p, err := sch.AggregatePublicKeys(cl)
+					if err == nil {
+						got[w] = hg.Enc(p)
+					}
+				})
+			}(w)
+		}
+		wg.Wait()
+		for w := range got {
+			if got[w] != want {
+				c.rep.Fail("bdn.Mask.Clone+AggregatePublicKeys/concurrent-result-differs", "clones of one base mask aggregating concurrently returned a different key", nil)
+			}
+		}
+		// one unsorted complete share list, recovered from by all workers
+		im := impls["edwards25519"]
+		pri := share.NewPriPoly(im.G, 3, im.NewScalar(rng.BigBelow(im.Q)), vh.NewSeqStream(rng.Bytes(8)))
+		pubS := pri.Commit(nil).Shares(7)
+		wantC := hg.Enc(pri.Commit(nil).Commit())
+		lst := make([]*share.PubShare, 0, 7)
+		for _, i := range permuted(7, 3, rng) {
+			lst = append(lst, pubS[i])
+		}
+		for w := 0; w < workers; w++ {
+			wg.Add(1)
+			go func(w int) {
+				defer wg.Done()
+				vh.Try(func() {
+					v, err := share.RecoverCommit(im.G, lst, 3, 7)
+					got[w] = ""
+					if err == nil {
+						got[w] = hg.Enc(v)
+					}
+				})
+			}(w)
+		}
+		wg.Wait()
+		for w := range got {
+			if got[w] != wantC {
+				c.rep.Fail("share.RecoverCommit/concurrent-result-differs", "recoveries from one shared share list returned a different commitment", nil)
+			}
+		}
+		c.rep.Count(fmt.Sprintf("composite-stress %d", trial), true)
+	}
+}
+
 func schemeChecks(c *ctx, im *hg.Impl, rng *vh.Rng) {
 	name := im.Name
 	obj := func(kind int, what string, shared []interface{}, f func() string) {
@@ -824,7 +832,7 @@ func schemeChecks(c *ctx, im *hg.Impl, rng *vh.Rng) {
 	// public polynomial shared for evaluation
 	secret := im.NewScalar(rng.BigBelow(im.Q))
 	pri := share.NewPriPoly(im.G, 3, secret, vh.NewSeqStream(rng.Bytes(8)))
-	pub := pri.Commit(nonNormal(im, rng))
+	pub := pri.Commit(hg.NonNormal(im, rng))
 	obj(4, "share.PubPoly.Eval/Commit", []interface{}{pub}, func() string {
 		return hg.Enc(pub.Eval(2).V) + hg.Enc(pub.Commit())
 	})
@@ -838,7 +846,7 @@ type schnorrSuite interface {
 // ---------------------------------------------------------------- failing-schedule search
 
 func stress(c *ctx, im *hg.Impl, rng *vh.Rng) {
-	p, q := nonNormal(im, rng), nonNormal(im, rng)
+	p, q := hg.NonNormal(im, rng), hg.NonNormal(im, rng)
 	s := im.NewScalar(rng.BigBelow(im.Q))
 	calls := map[string]func() string{
 		"MarshalBinary":  func() string { b, _ := p.MarshalBinary(); return string(b) },
@@ -860,7 +868,7 @@ func stress(c *ctx, im *hg.Impl, rng *vh.Rng) {
 		want[k] = calls[k]()
 	}
 	// rebuild non-normalised inputs: the reference run may have normalised them
-	p2, q2 := nonNormal(im, rng), nonNormal(im, rng)
+	p2, q2 := hg.NonNormal(im, rng), hg.NonNormal(im, rng)
 	wantP2 := hg.Enc(im.FreshPoint(hg.Enc(im.G.Point().Add(p2, q2))))
 	var wg sync.WaitGroup
 	var mu sync.Mutex
@@ -1004,6 +1012,10 @@ func main() {
 		pairingChecks(c, nm, g1.Suite, g1, g2, rng.Fork(), pd)
 	}
 	suiteChecks(c, rng.Fork())
+	compositeChecks(c, byName, rng.Fork())
+	if o.Search {
+		compositeStress(c, byName, rng.Fork())
+	}
 	_ = big.NewInt
 	if o.Search {
 		raceSearch(o, rep)
